@@ -835,6 +835,21 @@ func scenarios() []*sched.Scenario {
 			vrt.Fail("apply-not-atomic", "Apply(+2,-1) || Apply(+1,+2) returned %s and %s, final %s: no serial order explains this", r1, r2, fin)
 		}
 	}})
+	// two add-only Applies are atomic with respect to each other as well: the results and the insertion order are
+	// those of one of the two serial orders
+	out = append(out, &sched.Scenario{Name: "apply-vs-apply-add-only", Run: func() {
+		s := ds.NewSet[int]()
+		var d1, d2 ds.SetMutations[int]
+		vrt.Par(func() { d1 = s.Apply(mut([]int{1, 2}, nil)) }, func() { d2 = s.Apply(mut([]int{2, 3}, nil)) })
+		r1, r2 := fmt.Sprint(d1.AddedElements().ToSlice()), fmt.Sprint(d2.AddedElements().ToSlice())
+		fin := fmt.Sprint(s.ToSlice())
+		vrt.Observe("final", fin, r1, r2)
+		okA := r1 == "[1 2]" && r2 == "[3]" && fin == "[1 2 3]"
+		okB := r2 == "[2 3]" && r1 == "[1]" && fin == "[2 3 1]"
+		if !okA && !okB {
+			vrt.Fail("apply-not-atomic", "Apply(+1,+2) || Apply(+2,+3) returned %s and %s, final order %s: no serial order explains this", r1, r2, fin)
+		}
+	}})
 	out = append(out, &sched.Scenario{Name: "add-delete-has-linearizable", Run: func() {
 		s := ds.NewSet[int]()
 		r := &rec{}
